@@ -183,6 +183,7 @@ func classify(prop string, o *outcome) (nontrivial bool, feature uint64, classes
 	add(o.leftover != "", "leftover-goroutines")
 	add(r.P.LatencyMs > 0, "link-latency")
 	add(has("fresh-server-joins"), "fresh-server-joins")
+	add(anyPrefix(f, "log-read-error@"), "log-read-errors")
 	add(has("acked-entry-applied-in-one-batch-behind-an-inherited-command"), "acked-entry-batched-behind-inherited-command")
 	add(has("apply-ok"), "apply-ok")
 	switch prop {
